@@ -118,7 +118,7 @@ CHECKS = {
     "C16": {
         "scenarios": [{"name": "payouts"}, {"name": "ledger"}, {"name": "bank"}],
         "accept": ["payouts:", "refund:", "bank:", "history-replay:balances-differ:bank-"],
-        "technique": "Lean: bank pass of a block — PEG supply grows by exactly the sum of Payouts over the requests, which is at most the bank; bank row gets used = sum of yields, requested = total (recordPegRequests level, genuine PEG requests); Payouts: limit, full if fits, exact when over, proportional; refund: yield*pegRate + refund*srcRate <= input*srcRate; paying a request credits exactly yield (PEG) + Refund(input, yield) (source asset) to the requester and records both in its history row, for every address and asset. Tie: ConversionSupplySet / Refund vs the model; bank-era chains with requests below / around / above the bank, ungraded blocks, rejected requests; refund monitor on every executed PEG request (recorded refund = floor((requested - paid)*peg/src))",
+        "technique": "Lean: bank pass of a block — PEG supply grows by exactly the sum of Payouts over the requests, which is at most the bank; bank row gets used = sum of yields, requested = total (recordPegRequests level, genuine PEG requests); Payouts: limit, full if fits, exact when over, proportional; refund: yield*pegRate + refund*srcRate <= input*srcRate; paying a request credits exactly yield (PEG) + Refund(input, yield) (source asset) to the requester and records both in its history row, for every address and asset. bank_pass_never_fails: on conversions with distinct keys (no transfer inside a PEG-request batch: the recorded finding) the pass never fails; no request is paid more than the bank. Tie: ConversionSupplySet / Refund vs the model; bank-era chains with requests below / around / above the bank, ungraded blocks, rejected requests; refund monitor on every executed PEG request (recorded refund = floor((requested - paid)*peg/src))",
         "assumptions": ["request keys are distinct (Go map keys)", "bank is a uint64"],
         "design_ref": "DESIGN.md §7 C16",
     },
